@@ -286,7 +286,27 @@ func (e *Engine) evalCall(st *State, call *ast.CallExpr) Value {
 			e.fail(call, "call of unknown function value")
 		}
 		e.evalArgs(st, call, sig)
-		return e.havocCall(st, "function value "+e.slug(call.Fun), sig, call, true)
+		// callback parameter with a `preserves` assumption
+		var keep []*Clause
+		if id, ok := funX.(*ast.Ident); ok && e.fc != nil {
+			for _, cb := range e.fc.callbacks {
+				if cb.label == id.Name {
+					keep = append(keep, cb)
+				}
+			}
+		}
+		var before []Value
+		for _, cb := range keep {
+			cb.fired++
+			before = append(before, e.evalClauseValue(st, cb))
+		}
+		r := e.havocCall(st, "function value "+e.slug(call.Fun), sig, call, true)
+		for i, cb := range keep {
+			after := e.evalClauseValue(st, cb)
+			e.assume(st, e.valuesEqual(st, before[i], after, cb.info.TypeOf(cb.expr), call), "callback preserves "+cb.text+" (assumed; callers must establish it)")
+			e.noteAssumption("callback " + cb.label + " preserves " + cb.text)
+		}
+		return r
 	}
 	sig := fn.Type().(*types.Signature)
 	var args []Value
@@ -1220,7 +1240,12 @@ func (e *Engine) evalSpecHelper(st *State, call *ast.CallExpr, name string) Valu
 		}
 		decl := fmt.Sprintf("(declare-fun %s (%s) Int)", gname, strings.TrimSpace(strings.Repeat("Int ", len(argTs))))
 		e.declareUF(gname, decl)
-		r := app(SInt, gname, argTs...)
+		var r T
+		if len(argTs) == 0 {
+			r = T{gname, SInt}
+		} else {
+			r = app(SInt, gname, argTs...)
+		}
 		// ghost maps live at negative references: never nil, never a program allocation
 		e.ghostMapAxiom(gname, len(argTs))
 		return RefV{r}
@@ -1263,7 +1288,15 @@ func (e *Engine) ghostMapAxiom(gname string, n int) {
 		vars = append(vars, v)
 		args = append(args, T{v, SInt})
 	}
-	e.assumeGlobal(Forall(vars, Lt(app(SInt, gname, args...), I(0))), "ghost map references are negative")
+	// each ghost-map family lives in its own residue class mod 64: maps of different families never alias
+	e.gmapFamilies++
+	fam := I(int64(e.gmapFamilies % 64))
+	if n == 0 {
+		e.assumeGlobal(And(Lt(T{gname, SInt}, I(0)), Eq(Mod(T{gname, SInt}, I(64)), fam)), "ghost map references are negative; families are disjoint")
+		return
+	}
+	t := app(SInt, gname, args...)
+	e.assumeGlobal(Forall(vars, And(Lt(t, I(0)), Eq(Mod(t, I(64)), fam))), "ghost map references are negative; families are disjoint")
 }
 
 type bytesOp struct{ arr, off, n T }
